@@ -62,11 +62,28 @@ def regular(case):
     if case["noise"]:
         f = f + np.random.RandomState(7).normal(0, case["noise"] * Fmax,
                                                 f.size)
+    if case.get("int_unit"):
+        # force stored as whole multiples of a unit in an integer array
+        # (detector counts, whole fN / pN)
+        unit, dtype = INT_UNITS[case["int_unit"]]
+        f = np.round(f / unit).astype(dtype)
     return f, true_idx
+
+
+INT_UNITS = {"fN:int64": (1e-15, np.int64), "pN:int32": (1e-12, np.int32)}
+#: transformations of integer arrays ("i..." keep the integer type)
+TRANSFORMS_INT = [("scale", 1.0), ("scale", 0.5), ("scale", 2.0 ** 20),
+                  ("scale", 0.37), ("scale", 3.3), ("iscale", 2),
+                  ("iscale", 3), ("ishift", 1000), ("shift", 0.25),
+                  ("shift", 1e5)]
 
 
 def transform(f, tr):
     kind, val = tr
+    if kind == "iscale":
+        return f * f.dtype.type(val)
+    if kind == "ishift":
+        return f + f.dtype.type(val)
     if kind == "scale":
         return f * val
     if kind == "shift":
@@ -79,7 +96,7 @@ def regular_case(case):
     out = []
     f, true_idx = regular(case)
     meth = case["method"]
-    site = meth
+    site = meth + (":" + case["int_unit"] if case.get("int_unit") else "")
 
     def viol(clause, wit, detail):
         out.append(V(PROP, clause, site=site, witness=wit, detail=detail,
@@ -106,7 +123,7 @@ def regular_case(case):
                  f"index {idx}, true contact {true_idx}: |d|/len = "
                  f"{err:.3f} > stated {bound}")
     moved = 0
-    for tr in TRANSFORMS:
+    for tr in (TRANSFORMS_INT if case.get("int_unit") else TRANSFORMS):
         g = transform(f0, tr)
         try:
             j = poc.compute_poc(g, method=meth)
@@ -115,7 +132,8 @@ def regular_case(case):
                 raise
             viol("estimator-raises", f"{tr}", repr(e))
             continue
-        pow2 = tr[0] == "scale" and np.log2(tr[1]) == int(np.log2(tr[1]))
+        pow2 = tr[0] in ("scale", "iscale") \
+            and np.log2(tr[1]) == int(np.log2(tr[1]))
         if pow2:
             if j != idx:
                 viol("scale-pow2-exact", f"x{tr[1]}", f"index {j} after "
@@ -123,7 +141,7 @@ def regular_case(case):
         else:
             lim = 1
             if abs(int(j) - int(idx)) > lim:
-                clause = "scale-within-one" if tr[0] == "scale" \
+                clause = "scale-within-one" if "scale" in tr[0] \
                     else "shift-within-one"
                 viol(clause, f"{tr[0]}:{tr[1]}", f"index {j} after "
                      f"{tr[0]} {tr[1]}, {idx} before")
@@ -303,6 +321,13 @@ def cases(tier):
     for f in RECORDED:
         for m in meths:
             cs.append({"kind": "regular", "method": m, "recorded": f})
+    for iu in INT_UNITS:
+        for noise in (0.0, 0.02):
+            for m in meths:
+                cs.append({"kind": "regular", "method": m,
+                           "model": "hertz_para", "noise": noise,
+                           "baseline_fraction": 0.5, "tilt": 0.0, "n": 200,
+                           "int_unit": iu})
     valid = ["V1", "V2", "V5", "V6", "V7"]
     for a in valid:
         for b in valid:
